@@ -121,6 +121,7 @@ class Body:
         self._calls = None
         self._omemo = {}
         self._constlocals = None
+        self._pbodies = {}
 
     # ---------------- basic structure
     def term(self, b):
@@ -444,7 +445,20 @@ class Body:
     def _const_origin(self, k):
         if "fn" in k:
             return ("fnref", k.get("res") or k["fn"], k["fn"])
-        if "u" in k and not k.get("promoted"):
+        if "u" in k and k.get("promoted") is not None:
+            pr = self.raw.get("promoted")
+            idx = k["promoted"]
+            if pr and idx < len(pr) and not getattr(self, "_is_promoted", False):
+                pb = self._pbodies.get(idx)
+                if pb is None:
+                    pb = Body(self.facts, self.crate, self.path + "::promoted[%d]" % idx, pr[idx])
+                    pb._is_promoted = True
+                    pb.raw = dict(pr[idx])
+                    pb.raw["promoted"] = pr
+                    self._pbodies[idx] = pb
+                return ("promoted", pb.local_origin(0))
+            return ("lit", None, k.get("ty"))
+        if "u" in k:
             return ("const", k["u"], k.get("v"), k.get("ty"))
         if "v" in k:
             return ("lit", k["v"], k.get("ty"))
@@ -731,6 +745,8 @@ def fmt(tree, maxlen=400):
             return "{%s := %s}" % (t[1], r(t[2], d + 1))
         if k == "fnref":
             return "fn " + short(t[1])
+        if k == "promoted":
+            return "const{%s}" % r(t[1], d + 1)
         if k == "subslice":
             return "%s[%s..%s%s]" % (r(t[1], d + 1), t[2], "-" if t[4] else "", t[3])
         return k
